@@ -32,13 +32,32 @@ class Ctx:
         return quick if self.quick else thorough
 
 
+class CaseTimeout(BaseException):
+    """a single case ran into the per-case wall-clock limit (a changed library may loop forever)"""
+
+
+def _on_alarm(signum, frame):
+    raise CaseTimeout()
+
+
+CASE_LIMIT_S = int(os.environ.get("VERIF_CASE_LIMIT", "120"))
+
+
 def safe_impl(mod, case):
+    import signal
+    old = signal.signal(signal.SIGALRM, _on_alarm)
+    signal.alarm(CASE_LIMIT_S)          # property modules may arm a shorter alarm of their own inside run_impl
     try:
         return mod.run_impl(case)
+    except CaseTimeout:
+        return ["HARNESS-EXC", "CaseTimeout", f"case did not finish within {CASE_LIMIT_S} s", ""]
     except BaseException as e:   # the driver itself must never take the check down
         if isinstance(e, (KeyboardInterrupt, SystemExit)):
             raise
         return ["HARNESS-EXC", type(e).__name__, str(e)[:300], traceback.format_exc()[-600:]]
+    finally:
+        signal.alarm(0)
+        signal.signal(signal.SIGALRM, old)
 
 
 def evaluate(mod, cases):
@@ -162,8 +181,11 @@ def main(argv=None):
         else:
             unexplained.append(i)
 
+    def public(c):
+        return {k: v for k, v in c.items() if not str(k).startswith("_")} if isinstance(c, dict) else c
+
     def report(case, obs, why, extra=None):
-        payload = {"property": prop, "case": case, "impl_observation": obs, "why": why}
+        payload = {"property": prop, "case": public(case), "impl_observation": obs, "why": why}
         if extra:
             payload.update(extra)
         path = lib.write_replay(prop, payload)
@@ -247,7 +269,7 @@ def main(argv=None):
         except Exception:
             pass
     dist = mod.distribution(results) if hasattr(mod, "distribution") else {}
-    samples = [{"case": c, "impl": enc} for c, enc, v, o in results[len(corpus):len(corpus) + 3]]
+    samples = [{"case": public(c), "impl": enc} for c, enc, v, o in results[len(corpus):len(corpus) + 3]]
     coverage = {
         "obligations": max(pg["obligations"], 1), "discharged": pg["discharged"],
         "checker_cmd": f"coqc -Q coq/theories PW coq/theories/Props/{prop}.v  (after make -C coq; Print Assumptions parsed)",
